@@ -171,8 +171,13 @@ def is_empty_struct_ref(t):
     return t.kind == "ref" and t.decl.kind == "struct" and not t.decl.constructors[0].fields
 
 
+# names that do not collide with members of the generated C++ structs (tl_name, json ...)
+CPP_SAFE_FIELD_NAMES = ["a", "b", "c", "d", "e", "f", "g", "h", "k", "x", "y", "z", "val", "item", "str", "w", "r", "err", "flags", "cnt", "key2", "payload", "count2"]
+
+
 class Gen:
-    def __init__(self, seed, label="schema", max_types=12, allow_recursion=True, profile="full", anon_pairs=True, rec_containers=False):
+    def __init__(self, seed, label="schema", max_types=12, allow_recursion=True, profile="full", anon_pairs=True, rec_containers=False, field_names=None):
+        self.field_names = field_names or FIELD_NAMES
         self.anon_pairs = anon_pairs
         self.rec_containers = rec_containers  # recursion through vector/dictionary/Maybe: legal, but generated FillRandom values of such types get huge
         self.r = stream(seed, label)
@@ -238,7 +243,7 @@ class Gen:
         masks = [(p, "param") for (p, role) in params if role == "mask"]
         out, used = [], set(p for p, _ in params)
         for i in range(n):
-            nm = r.pick(FIELD_NAMES)
+            nm = r.pick(self.field_names)
             while nm in used:
                 nm = nm + str(r.below(90))
             used.add(nm)
